@@ -60,6 +60,8 @@ var gzMin = 64
 func payload(size string, compressible bool, seed int64) []byte {
 	n := gzMin
 	switch size {
+	case "empty":
+		n = 0
 	case "min-1":
 		n = gzMin - 1
 	case "min":
@@ -380,8 +382,15 @@ func main() {
 			}
 		case k.Kind == "head":
 			addr := serverFor(srvKey{"size", k.Limit, 0, k.Pos})
-			req := fmt.Sprintf("HEAD /h HTTP/1.1\r\nHost: x\r\nX-Verif-Id: %s\r\nX-Verif-Mode: head\r\nX-Verif-Case: %s\r\n\r\n", id, raw)
-			resp, _, rerr := roundTrip(addr, []byte(req), "HEAD")
+			var hm struct {
+				Method string `json:"method"`
+			}
+			json.Unmarshal(raw, &hm)
+			if hm.Method == "" {
+				hm.Method = "HEAD"
+			}
+			req := fmt.Sprintf("%s /h HTTP/1.1\r\nHost: x\r\nX-Verif-Id: %s\r\nX-Verif-Mode: head\r\nX-Verif-Case: %s\r\n\r\n", hm.Method, id, raw)
+			resp, _, rerr := roundTrip(addr, []byte(req), hm.Method)
 			if resp == nil {
 				o = map[string]any{"status": 0, "cl": -1, "hdr": false, "err": fmt.Sprint(rerr)}
 			} else {
